@@ -265,6 +265,11 @@ def import_parse_contracts(chk, rule, levels=("type", "member", "nested-parent")
 
 
 def run(chk):
+    # a shortcut yields one entry, its written-out basics several: both give the same conversions only if the lookups pick, among
+    # several entries of one member, the first that is dedicated AND applicable to the kind (contract decided in C05.R3)
+    from .c05 import import_lookup_contracts
+    chk.guard("R4", lambda: import_lookup_contracts(chk, "R4", ["ghost", "ghosts_attr", "field_attr", "field_attr_core"], with_chain=False,
+                                                    desc="lookups resolve a written-out pair (several entries) like the single shortcut entry: first dedicated-and-applicable, else first applicable default"))
     chk.guard("R1", lambda: r1(chk))
     chk.guard("R1", lambda: type_hint_contract(chk, "R1"))
     chk.guard("R2", lambda: r2(chk))
